@@ -22,11 +22,11 @@ def all_cases(tier):
     # on the client MTU).  cfg 0/5: fully symbolic client MTU; cfg 2: symbolic for Read, concrete client MTUs for the others
     # (a symbolic MTU up to 65 is out of reach for the list requests, measured: no verdict in 600 s)
     cs += [case(0, 1, 3, 0x0A, 0), case(5, 1, 3, 0x0A, 0), case(2, 1, 3, 0x0A, 0)]
-    cs += [case(0, 1, 7, 0x08, 0), case(5, 1, 7, 0x08, 30), case(2, 1, 7, 0x08, 23)]
+    cs += [case(0, 1, 5, 0x0C, 0), case(5, 1, 5, 0x0C, 0), case(5, 1, 23, 0x16, 0)]
     for m in ((23, 65) if q else (23, 24, 40, 64, 65, 66, 0xffff)):
         cs += [case(2, 1, 3, 0x0A, m), case(2, 1, 5, 0x0C, m)]
     if not q:
-        for opc, l in [(0x0C, 5), (0x04, 5), (0x10, 7), (0x16, 23), (0x0E, 5), (0x06, 9)]:
+        for opc, l in [(0x04, 5), (0x10, 7), (0x16, 23), (0x0E, 5), (0x06, 9)]:
             cs.append(case(0, 1, l, opc, 0))
             for m in (23, 30, 40, 41):
                 cs.append(case(5, 1, l, opc, m))
@@ -49,7 +49,7 @@ def cases_of(cfg):
     return lambda tier: [c for c in all_cases(tier) if c['CFG'] == cfg]
 
 
-COMMON = dict(timeout=600, flags=['-DVF_MAX_INPUTS=512'], diff_iters=300, diff_cases=6, unwindset=['in_bytes.0:101'])
+COMMON = dict(timeout=1500, flags=['-DVF_MAX_INPUTS=512'], diff_iters=300, diff_cases=6, unwindset=['in_bytes.0:101'])
 UNWIND = {0: 30, 1: 30, 2: 72, 3: 30, 5: 46}
 
 PROPERTY = Property(
@@ -69,6 +69,6 @@ PROPERTY = Property(
     explanation='exchange step: from any client MTU state any Exchange MTU Request leaves negotiated_mtu() == min(server maximum, last valid client MTU) and is answered as the '
                 'statement says; request step and output step: from any such state every response, notification and indication is at most that MTU long and a value longer than '
                 'the MTU is cut exactly at it; by induction over the sequence of PDUs this is the property for sequences of any length; a two-exchange history is checked directly',
-    outside=['server maxima other than 23, 40, 65', 'fully symbolic client MTU for list requests on the 65 byte server (checked for 7 concrete client MTUs)',
+    outside=['server maxima other than 23, 40, 65', 'Read By Type / Find Information Request with symbolic client MTU and an output buffer larger than the MTU (no verdict in 600 s on the loaded machine; the size bound for it is asserted in C01 with buffer == server maximum)', 'fully symbolic client MTU for list requests on the 65 byte server (checked for 7 concrete client MTUs)',
              'the link layer calling l2cap_output with a buffer smaller than 23'],
 )
